@@ -246,14 +246,14 @@ theorem wrrBest_spec (now : Nat) (pool : List Backend) (bs : List Backend) :
       · subst hji; rw [hi] at hb'; simp at hb'; subst hb'; simpa using he
       · exact hn h j b' (by omega) hb'
 
-theorem wrrPick_spec (pool : List Backend) (now : Nat) :
-    (∀ i, (wrrPick pool now).2 = some i → ∃ b, pool[i]? = some b ∧ b.eligible now = true) ∧
-    ((wrrPick pool now).2 = none → ∀ b ∈ pool, b.eligible now = false) := by
+theorem wrrPickCore_spec (pool : List Backend) (now : Nat) :
+    (∀ i, (wrrPickCore pool now).2 = some i → ∃ b, pool[i]? = some b ∧ b.eligible now = true) ∧
+    ((wrrPickCore pool now).2 = none → ∀ b ∈ pool, b.eligible now = false) := by
   have hs := wrrBest_spec now (wrrBump pool now) (wrrBump pool now) 0 none (by simp)
     (by intro r c h; simp at h) (by intro _ j b h; omega)
   constructor
   · intro i h
-    simp only [wrrPick] at h
+    simp only [wrrPickCore] at h
     split at h
     · simp at h
     · rename_i r c hbest
@@ -265,7 +265,7 @@ theorem wrrPick_spec (pool : List Backend) (now : Nat) :
       | none => simp [hp] at this
       | some b0 => simp [hp, hb2] at this; exact ⟨b0, rfl, this⟩
   · intro h b hb
-    simp only [wrrPick] at h
+    simp only [wrrPickCore] at h
     split at h
     · rename_i hbest
       obtain ⟨j, hj, hjb⟩ := List.getElem_of_mem hb
@@ -277,5 +277,41 @@ theorem wrrPick_spec (pool : List Backend) (now : Nat) :
       rw [hjb] at this
       rw [← this]; exact h2
     · simp at h
+
+/-- the reset only touches the running weights -/
+theorem wrrReset_getElem (pool : List Backend) (ids lastEl : List Nat) (now i : Nat) :
+    (wrrReset pool ids lastEl now)[i]? = (pool[i]?).map (fun b => { b with cw := ((wrrReset pool ids lastEl now)[i]?.map (·.cw)).getD 0 }) := by
+  simp only [wrrReset]
+  split
+  · cases pool[i]? <;> simp
+  · simp only [List.getElem?_map]; cases pool[i]? <;> simp
+
+theorem wrrReset_eligible (pool : List Backend) (ids lastEl : List Nat) (now i : Nat) :
+    ((wrrReset pool ids lastEl now)[i]?).map (·.eligible now) = (pool[i]?).map (·.eligible now) := by
+  rw [wrrReset_getElem]
+  cases pool[i]? <;> simp [Backend.eligible]
+
+theorem wrrPick_spec (pool : List Backend) (ids lastEl : List Nat) (now : Nat) :
+    (∀ i, (wrrPick pool ids lastEl now).2 = some i → ∃ b, pool[i]? = some b ∧ b.eligible now = true) ∧
+    ((wrrPick pool ids lastEl now).2 = none → ∀ b ∈ pool, b.eligible now = false) := by
+  have hs := wrrPickCore_spec (wrrReset pool ids lastEl now) now
+  constructor
+  · intro i h
+    obtain ⟨b, hb1, hb2⟩ := hs.1 i h
+    have := wrrReset_eligible pool ids lastEl now i
+    rw [hb1] at this
+    cases hp : pool[i]? with
+    | none => simp [hp] at this
+    | some b0 => simp [hp, hb2] at this; exact ⟨b0, rfl, this⟩
+  · intro h b hb
+    obtain ⟨j, hj, hjb⟩ := List.getElem_of_mem hb
+    have hlen : j < (wrrReset pool ids lastEl now).length := by
+      simp only [wrrReset]; split <;> simpa using hj
+    have h2 := hs.2 h _ (List.getElem_mem hlen)
+    have := wrrReset_eligible pool ids lastEl now j
+    rw [List.getElem?_eq_getElem hlen, List.getElem?_eq_getElem hj] at this
+    simp only [Option.map_some, Option.some.injEq] at this
+    rw [hjb] at this
+    rw [← this]; exact h2
 
 end Helios.LB
